@@ -405,7 +405,10 @@ func (s *LinearState) doFindRules(ctx *Context, event Map) (map[string]Map, erro
 				}
 			}
 		default:
-			panic(fmt.Errorf("rule %#v bad type", rule))
+			// A plain fact can have a "rule" property that is not
+			// a rule.  That fact is not a rule (and IndexedState
+			// does not treat it as one), so just skip it.
+			Log(DEBUG, ctx, "LinearState.FindRules", "name", s.Name, "id", id, "notARule", fmt.Sprintf("%T", rule))
 		}
 	}
 
